@@ -238,6 +238,7 @@ def _registry():
     reg("N2:arr-c128", lambda: np.array([1.5 + 0.1j, 1.6]), False)
     reg("N2:c128", lambda: [np.complex128(1.5 + 0.1j), 1.6])
     reg("N2:cprior", lambda: [ComplexPrior(U(1.4, 1.6), 0.01), 1.6])
+    reg("N2:list-0d", lambda: [np.array(1.5 + 0.1j), np.array(1.6)], False)
     reg("wip:arr", lambda: np.arange(8.0).reshape(4, 2) / 4, False)
     reg("wip:list", lambda: [[0.0, 0.25], [0.5, 0.75]])
     reg("wip:tuple", lambda: ((0.0, 0.25), (0.5, 0.75)), False)
@@ -431,7 +432,7 @@ VEC3 = ["V3:list", "V3:tuple", "V3:arr", "V3:ints", "V3:ext", "V3:np",
         "V3:tuple-priors", "V3:shared", "V3:objarr"]
 VEC2 = [v.replace("V3:", "V2:") for v in VEC3]
 NVEC = [v.replace("V3:", "N2:") for v in VEC3] + [
-    "N2:cplx", "N2:arr-c128", "N2:c128", "N2:cprior"]
+    "N2:cplx", "N2:arr-c128", "N2:c128", "N2:cprior", "N2:list-0d"]
 BOOL = ["True", "False", "npTrue"]
 BOOLF = ["False", "True", "npFalse"]
 NAME = ["None", "str:par", "str:odd", "str:num"]
